@@ -83,6 +83,7 @@ func VerifC10Clean() {
 		}
 		verifAssert(h.observeBest(h.repo, prune) == h.observeBest(t.repo, prune), "cleaned-and-uncleaned-repositories-diverge")
 		verifObserve("step", s, op, h.repo.Height(), t.repo.Height())
+		verifObserve("state", h.observeBest(h.repo, prune))
 	}
 	verifReach("done")
 }
@@ -127,6 +128,7 @@ func VerifC11SaveLoad() {
 		}
 		verifAssert(h.observeBest(h.repo, prune) == h.observeBest(t.repo, prune), "loaded-and-original-repositories-diverge")
 		verifObserve("step", s, op, h.repo.Height(), t.repo.Height())
+		verifObserve("state", h.observeBest(h.repo, prune))
 	}
 	verifReach("done")
 }
